@@ -157,7 +157,7 @@ class PlatformStandIn:
 
 def reset_plan(cycles, p=0.2):
     """Cycles in which the design's synchronous reset is asserted (a warm reset in the middle of traffic), chosen
-    deterministically from the case's stimulus seed: empty for most cases, else 1-3 cycles. A bench that uses it
+    deterministically from the case's stimulus seed: empty for most cases, else 1-3 pulses of 1-3 cycles. A bench that uses it
     drives the reset with drive_reset() and re-initialises its reference model at the end of such a cycle:
     registers return to their initial values at that clock edge whatever else happens in the cycle."""
     import os
@@ -165,7 +165,11 @@ def reset_plan(cycles, p=0.2):
     r = random.Random(CURRENT_CASE_SEED + ":reset")
     if r.random() >= p and not os.environ.get("VMON_FORCE_RESET"):
         return frozenset()
-    return frozenset(r.randrange(2, max(3, cycles - 2)) for _ in range(r.choice([1, 1, 2, 3])))
+    out = set()
+    for _ in range(r.choice([1, 1, 2, 3])):
+        start = r.randrange(2, max(3, cycles - 4))
+        out.update(range(start, start + r.choice([1, 1, 1, 2, 3])))       # the reset may be held for a few cycles
+    return frozenset(out)
 
 
 def drive_reset(ctx, on):
